@@ -327,7 +327,12 @@ def run(run):
         run.rid_prefix = ""
     # the text shown to the operator for signing elsewhere is the message itself, control characters escaped
     ep = P.func("admin.ledger_utils.eth_message_to_printable")
-    rv_ = {_strip(x) for x in return_values(A, ep, None, PV)}
+    def _fc(x):
+        try:
+            return _strip(norm(fold_consts(P, ast.parse(x, mode="eval").body, ep, None, locals_=set(ep.params))))
+        except SyntaxError:
+            return _strip(x)
+    rv_ = {_fc(x) for x in return_values(A, ep, None, PV)}
     run.check("R4", rv_ == {_strip(f"repr({ep.params[0]}.decode('ascii'))[1:-1]")}, "the printable form of the message is its repr without the quotes", key="eth_message_to_printable|expr",
               where=ep.loc(), message=f"eth_message_to_printable returns {sorted(rv_)[:2]}; expected repr(msg.decode('ascii'))[1:-1]: the text the operator is given to sign "
               "(with another tool) would not be the Ethereum personal message whose digest signapp and the device use")
